@@ -1358,13 +1358,16 @@ def strings_for(ast, env, rnd, big=False, nlong=24):
         wide = [c for c in wide if c != 0x0D]
     # a backtracking engine needs time exponential in the string length for a choice inside a repetition:
     # such expressions get long strings of at most 12 characters (the verdict is still compared)
-    risky = any(x[0] == 'rep' and (x[3] is None or x[3] >= 3) and has_choice(x[1]) for x in walk(ast))
-    cap = 12 if risky else 60
+    def big(x):
+        return x[0] == 'rep' and (x[3] is None or x[3] >= 3)
+    risky = any(big(x) and has_choice(x[1]) for x in walk(ast))
+    nested = any(big(x) and any(big(y) for y in walk(x[1])) for x in walk(ast))      # repetition inside repetition
+    cap = 7 if nested else (12 if risky else 60)
     for i in range(nlong):
         m = i % 3
-        s = sample_member(ast, env, rnd, maxrep=2 if risky else 3)
+        s = sample_member(ast, env, rnd, maxrep=1 if nested else (2 if risky else 3))
         if s is None or m == 2:
-            s = [rnd.choice(wide) for _ in range(rnd.choice([5, 6, 8, 12] if risky else [5, 6, 8, 12, 20, 40]))]
+            s = [rnd.choice(wide) for _ in range(rnd.choice([5, 6, 7] if nested else ([5, 6, 8, 12] if risky else [5, 6, 8, 12, 20, 40])))]
         elif m == 1 and s:
             j = rnd.randrange(len(s))
             op = rnd.random()
